@@ -123,7 +123,7 @@ def run_case(desc, ctx):
     files = [G.write_fa(ctx.path('s%d.fa' % i), recs) for i, recs in enumerate(samples)]
     # sample names: s<i> from the file names, or (a third of the cases) unusual but legal names given in file lists
     POOL = ['iso-1', 'A|b', 'x=y', 'n.1', 'E.coli.K12', 'a+b', 'S#3', 'p:q', "o'k", 'q~r', '7', 'Zz_', 'run.fastq', 'm.fa', '-dash', 'UPPER', 'é_coli']
-    odd = desc['seed'] % 3 == 0
+    odd = desc['seed'] % 3 == 0 and ns <= len(POOL)
     snames = rng.sample(POOL, ns) if odd else ['s%d' % i for i in range(ns)]
     if odd:
         res.count('unusual_sample_names')
